@@ -130,7 +130,7 @@ Section P.
   Notation sample_line := (om_sample_line legacy guard_fix fix_nhkeys fix_nhsfx fix_tsmix fix_isnan fix_quote fix_tsexp fix_sname
                       NUM parse_num parse_float parse_int num_lt num_eqb num_isinf num_integral num_huge
                       num_zero num_one num_inf ts_float is_word is_space_re is_digit_re).
-  Notation enter_family := (om_enter_family legacy guard_fix fix_sname NUM parse_float num_lt num_eqb num_zero num_inf).
+  Notation enter_family := (om_enter_family legacy guard_fix fix_nhsfx fix_sname NUM parse_float num_lt num_eqb num_zero num_inf).
   Notation group_step := (om_group_step fix_tsmix NUM num_lt num_eqb ts_float).
 
   Lemma meta_line_eof st line st' out : meta_line st line = Ok (st', out) -> st_eof st' = st_eof st.
